@@ -1599,7 +1599,9 @@ class ComponentNode(BaseNode):
         end_tag: str,
     ) -> "ComponentNode":
         # Set the component-specific start and end tags by subclassing the BaseNode
-        subcls_name = cls.__name__ + "_" + name
+        # NOTE: One subclass is shared by all components with the same start tag, so it is named after the tag
+        #       (and not after the component name, which is taken from the template and may be any text).
+        subcls_name = cls.__name__ + "_" + start_tag
 
         # We try to reuse the same subclass for the same start tag, so we can
         # avoid creating a new subclass for each time `{% component %}` is called.
